@@ -185,11 +185,14 @@ CHECKS = {
          "is inside the model: Impl.WritePage (code-shaped model of write_column's pages: make_definitions, encode_plain, encode_dict, header numbers) "
          "is tied to the real writer byte for byte on every page of every file the C02 run writes (wpage.chunk), and written_chunk_decodes "
          "(Props/C02) proves that the specification reader returns exactly the cells that went in, for any pages / v1 / v2 / REQUIRED / OPTIONAL / "
-         "PLAIN / dictionary. range_index_regenerated_now: a written RangeIndex of any start and non-zero step is regenerated with exactly one "
+         "PLAIN / dictionary. The reader side for v1 pages is inside the model too: Impl.ReadPage (code-shaped model of core.read_data_page - read_def, the "
+         "skip_definition_bytes shortcut, read_plain, the np.frombuffer shortcut for 8/16/32-bit codes - and of read_col's placement) is tied to the real "
+         "function on every v1 page the run writes (rpage.v1), and read_back_written_page / read_back_written_column prove reader-model(writer-model(cells)) = cells "
+         "for any cells, any page cuts, REQUIRED / OPTIONAL, PLAIN / dictionary, with or without the no-null shortcut. range_index_regenerated_now: a written RangeIndex of any start and non-zero step is regenerated with exactly one "
          "label per row (over the stop expression REGENERATED from api.py).",
          "Trusted: Lean kernel + standard axioms for the component theorems; dtype/metadata restoration (pandas metadata JSON, tz, "
          "categorical flags, numpy views in dataframe.empty) is outside the model and covered by the oracle only.",
-         "Lean 4 proof of pipeline components + specification reader correspondence + round-trip oracle", "§6 C01"),
+         "Lean 4 proof (reader model inverts writer model at page and chunk level; components) + function-level correspondence of both models + round-trip oracle", "§6 C01"),
  "C02": ("The Lean specification reader/validator Spec.File (file layout, Thrift compact metadata typed against the IDL table regenerated from "
          "parquet.thrift, page headers, v1/v2 page layouts, PLAIN / dictionary / RLE / delta values, hybrid levels) is run on the real bytes of "
          "EVERY file a write produces: magic, footer length, every metadata field with the id and wire type the IDL declares, per chunk "
